@@ -18,7 +18,7 @@ import (
 
 // C19: unreadable rule lists degrade results to a subset, never crash or lie.
 
-var c19FaultKinds = []string{"storage-close", "closed-descriptor", "directory-descriptor"}
+var c19FaultKinds = []string{"storage-close", "closed-descriptor", "directory-descriptor", "pipe-descriptor"}
 
 type c19Target struct {
 	kind    string // "dns" or "network"
@@ -85,6 +85,16 @@ func c19Inject(t *c19Target, kind string, dir string) error {
 		_ = f.Close()
 		old := t.list.File
 		t.list.File = f
+		_ = old.Close()
+	case "pipe-descriptor":
+		// Seek fails with ESPIPE, the descriptor itself is open.
+		r, w, err := os.Pipe()
+		if err != nil {
+			return err
+		}
+		_ = w.Close()
+		old := t.list.File
+		t.list.File = r
 		_ = old.Close()
 	case "directory-descriptor":
 		f, err := os.Open(dir)
@@ -314,8 +324,8 @@ func init() {
 	core.Register(&core.Prop{
 		ID:    "C19",
 		Level: "fault_enumeration",
-		Rule: "per case one file-backed list (DNS: rules + hosts lines over colliding names; network: a pool mixing all index paths) and one query history of 10..30 (thorough 10..60) queries drawn with repeats from 8 distinct requests; for EVERY fault point k in 0..n and every fault kind in {RuleStorage.Close, file handle replaced by an already closed descriptor, file handle replaced by a directory descriptor (reads fail with EISDIR)} the engine is rebuilt, queries before k must equal a String-backed twin, queries from k on must not panic, must return a subset of the fault-free result whose members individually match, and must still return every rule materialised before k (tracked from storage.insert hook events, cross-checked with GetCacheSize); " +
-			"non-trivial = every (list, history) pair, each contributing 3*(n+1) fault placements; distinct by list and history length",
+		Rule: "per case one file-backed list (DNS: rules + hosts lines over colliding names; network: a pool mixing all index paths) and one query history of 10..30 (thorough 10..60) queries drawn with repeats from 8 distinct requests; for EVERY fault point k in 0..n and every fault kind in {RuleStorage.Close, file handle replaced by an already closed descriptor, by a directory descriptor (Seek succeeds, reads fail with EISDIR), by the read end of a closed pipe (Seek fails with ESPIPE)} the engine is rebuilt, queries before k must equal a String-backed twin, queries from k on must not panic, must return a subset of the fault-free result whose members individually match, and must still return every rule materialised before k (tracked from storage.insert hook events, cross-checked with GetCacheSize); " +
+			"non-trivial = every (list, history) pair, each contributing 4*(n+1) fault placements; distinct by list and history length",
 		Assumptions: []string{
 			"the fault-free oracle is a String-backed twin engine over the same bytes",
 			"with only a subset of rules available the selected basic rule may legitimately differ from the fault-free one; only membership and match are required",
